@@ -44,7 +44,9 @@ fn lower_indices(plan: &Plan) -> Vec<Plan> {
 pub fn minimise(ctx: &Ctx, prop: &dyn Property, case: &Case, v: &Violation) -> (Case, Violation) {
     let mut cur = case.clone();
     let mut curv = v.clone();
-    let mut budget = BUDGET;
+    // a hanging candidate costs two watchdog periods: keep the budget small for hangs
+    let is_hang = v.detail.contains("status=hang") || v.observed.contains("status=hang");
+    let mut budget = if is_hang { 10 } else { BUDGET };
     let clause = v.clause.clone();
     let mut progress = true;
     while progress && budget > 0 {
